@@ -136,7 +136,28 @@ def check_cutoff(e1, e2):
     return None
 
 
+def check_equal(inp):
+    from mofun import Atoms
+    from mofun.detect_bonds import detect_bonds
+    e1, e2 = inp['elements']
+    c = float(spec_cutoff(e1, e2))
+    p2 = np.zeros(3)
+    p2[inp['axis']] = c
+    if float(np.sqrt((p2 ** 2).sum())) != c:
+        return 'skip'
+    kw = {} if inp['cell'] is None else {'cell': geo.CELLS['cubic'] * 1.0}
+    with quiet():
+        st = Atoms(elements=[e1, e2], positions=np.array([[0., 0, 0], list(p2)]), **kw)
+        got = [tuple(int(x) for x in b) for b in detect_bonds(st)]
+    if got:
+        return "%s and %s at a distance of exactly the cutoff %r are reported as bonded %r (bonded means below the cutoff)" % (e1, e2, c, got)
+    return None
+
+
 def replay(inp):
+    if inp.get('special') == 'equal-cutoff':
+        msg = check_equal(inp)
+        return (msg not in (None, 'skip')), (msg or 'not bonded at exactly the cutoff')
     msg = check_cutoff(inp['el1'], inp['el2']) if 'el1' in inp else check(inp)
     return (msg is not None), (msg or 'agrees with the rule')
 
@@ -147,7 +168,7 @@ REPLAY = {'bonds': replay, 'cutoff': replay}
 def run(rec, tier, seed):
     from mofun.detect_bonds import COVALENT_RADII
     rec.rule = ("max_bond_length on all 97x97 element pairs (exhaustive); detect_bonds on generated structures: 2-8 atoms, 3 cells + no cell, pairs "
-                "placed at cutoff +/- 1e-6, -1e-3, -0.2, +0.3, through faces/edges/corners, metal/non-metal mixes; compared with an independent "
+                "placed at exactly the cutoff, at cutoff +/- 1e-6, -1e-3, -0.2, +0.3, through faces/edges/corners, metal/non-metal mixes; compared with an independent "
                 "minimum-image computation over 125 images; shift-and-wrap and reorder invariance. distinct = specs")
     for e1 in COVALENT_RADII:
         for e2 in COVALENT_RADII:
@@ -155,6 +176,17 @@ def run(rec, tier, seed):
             rec.case(('cut', e1, e2), group='cutoff')
             if msg:
                 rec.fail('cutoff', 'max_bond_length', msg, {'el1': e1, 'el2': e2}, 'C17/max_bond_length/post')
+    # a pair whose distance EQUALS the cutoff (exactly, in floating point) is not "below" it: not bonded
+    for (e1, e2) in (('C', 'C'), ('C', 'H'), ('Zn', 'O'), ('Cu', 'Cu'), ('Zr', 'O'), ('Si', 'Si'), ('Fe', 'N'), ('H', 'H')):
+        for axis in range(3):
+            for cellname in (None, 'cubic'):
+                inp = {'special': 'equal-cutoff', 'elements': [e1, e2], 'axis': axis, 'cell': cellname}
+                msg = check_equal(inp)
+                if msg == 'skip':
+                    continue
+                rec.case(('equal', e1, e2, axis, cellname), group='distance-equals-cutoff')
+                if msg:
+                    rec.fail('bonds', 'detect_bonds', msg, inp, 'C17/detect_bonds/post')
     for cname in SKEW:
         for sd in range(3 if tier == 'quick' else 12):
             spec = dict(special='skew', cell=cname, seed=seed * 100 + sd)
